@@ -502,7 +502,20 @@ class Engine:
 
     def s_Try(self, s, st):
         if s.finalbody:
-            raise Unsupported("try/finally")
+            # try ... finally: the final block runs after every way out of the protected part (falling through, return, raise, break, continue);
+            # if it falls through, the way out stands (with the state the final block left), otherwise the final block's own way out replaces it
+            if s.handlers or s.orelse:
+                inner = ast.copy_location(ast.Try(body=s.body, handlers=s.handlers, orelse=s.orelse, finalbody=[]), s)
+                outs = self.s_Try(inner, st)
+            else:
+                outs = self.block(s.body, st)
+            for kind, val, st2 in outs:
+                for k2, v2, st3 in self.block(s.finalbody, st2):
+                    if k2 == "fall":
+                        yield (kind, val, st3)
+                    else:
+                        yield (k2, v2, st3)
+            return
         for kind, val, st2 in self.block(s.body, st):
             if kind == "fall" and s.orelse:
                 yield from self.block(s.orelse, st2)
@@ -1443,8 +1456,21 @@ class Engine:
     # ------------------------------------------------------------------ calls
     def e_Call(self, e, st):
         spelled = ast.unparse(e.func)
-        if any(isinstance(a, ast.Starred) for a in e.args) or any(k.arg is None for k in e.keywords):
+        if any(k.arg is None for k in e.keywords):
             raise Unsupported("star-args at call site")
+        if any(isinstance(a, ast.Starred) for a in e.args):
+            # f(*t) with t a tuple / list whose length is known here: the elements are the arguments
+            new_args = []
+            for a in e.args:
+                if not isinstance(a, ast.Starred):
+                    new_args.append(a); continue
+                outs = list(self.expr(a.value, st))
+                if len(outs) != 1 or outs[0][0] != "val" or not isinstance(outs[0][1], (list, tuple)):
+                    raise Unsupported("star-args at call site (not a tuple of known length)")
+                new_args.extend(ast.copy_location(ast.Constant(value=v), a) for v in outs[0][1])
+            e2 = ast.copy_location(ast.Call(func=e.func, args=new_args, keywords=e.keywords), e)
+            yield from self.e_Call(e2, st)
+            return
         if spelled in self.name_calls:
             for tag, args, st2 in self.seq(list(e.args) + [k.value for k in e.keywords], st):
                 if tag == "raise":
